@@ -17,7 +17,7 @@ var universeMenu = []inputs.Input{
 	{Fam: "docx", N: 20, P: 50}, {Fam: "ole", N: 600}, {Fam: "png", N: 32}, {Fam: "gif", N: 8}, {Fam: "pdf", N: 30},
 	{Fam: "random", N: 64, Seed: 3}, {Fam: "empty"}, {Fam: "csv", N: 4, V: 3}, {Fam: "ndjson", N: 4}, {Fam: "shebang", V: 0, N: 5},
 	{Fam: "svg", N: 10}, {Fam: "text_nul", N: 100, P: 50}, {Fam: "latin1", N: 40, P: 5}, {Fam: "gzip", N: 10}, {Fam: "elf", N: 16},
-	{Fam: "json_trunc", N: 120, P: 70}, {Fam: "json_bad", N: 120, P: 40, V: 1}, {Fam: "tsv", N: 3, V: 2}, {Fam: "rtf", N: 10},
+	{Fam: "bom8", V: 0, P: 1}, {Fam: "bom8", V: 3}, {Fam: "json_trunc", N: 120, P: 70}, {Fam: "json_bad", N: 120, P: 40, V: 1}, {Fam: "tsv", N: 3, V: 2}, {Fam: "rtf", N: 10},
 }
 
 // parents lists attachment points (names given to Lookup) and the input
@@ -28,7 +28,7 @@ var parents = []struct {
 }{
 	{"", nil},
 	{"", nil},
-	{"text/plain", []string{"text", "json", "geojson", "har", "gltf", "html_meta", "xml_enc", "csv", "ndjson", "shebang", "svg", "latin1", "json_trunc", "json_bad", "tsv", "rtf"}},
+	{"text/plain", []string{"text", "json", "geojson", "har", "gltf", "html_meta", "xml_enc", "csv", "ndjson", "shebang", "svg", "latin1", "json_trunc", "json_bad", "tsv", "rtf", "bom8"}},
 	{"application/json", []string{"json", "geojson", "har", "gltf", "json_trunc"}},
 	{"application/geo+json", []string{"geojson"}},
 	{"text/html", []string{"html_meta"}},
@@ -77,6 +77,12 @@ type extGen struct {
 	made     []*model.Ext
 	arrays   []int // shared arrays: lengths
 	arrUsed  []int // next free offset per array
+	// names that are carried by more than one registration, or used to look a
+	// parent up: a type is re-registered only while nobody attaches through it,
+	// and nobody attaches through it afterwards (keeps parents unambiguous
+	// under every interleaving).
+	dupName    map[string]bool
+	parentName map[string]bool
 }
 
 func (g *extGen) pred(target []string) model.Pred {
@@ -138,12 +144,35 @@ func (g *extGen) ext() *model.Ext {
 	e := &model.Ext{ID: id, ParentExt: -1, Arr: -1,
 		Mime: fmt.Sprintf("x-verif/e%d", id), Extension: fmt.Sprintf(".e%d", id)}
 	var target []string
+	if g.dupName == nil {
+		g.dupName, g.parentName = map[string]bool{}, map[string]bool{}
+	}
+	attached := false
 	if len(g.made) > 0 && g.r.Chance(1, 3) {
 		p := g.made[g.r.Intn(len(g.made))]
-		names := p.Names()
-		e.Parent = names[g.r.Intn(len(names))]
-		e.ParentExt = p.ID
-	} else {
+		var names []string
+		for _, nm := range p.Names() {
+			if !g.dupName[nm] {
+				names = append(names, nm)
+			}
+		}
+		if len(names) > 0 {
+			e.Parent = names[g.r.Intn(len(names))]
+			e.ParentExt = p.ID
+			g.parentName[e.Parent] = true
+			attached = true
+		}
+	}
+	if !attached && len(g.made) > 0 && g.r.Chance(1, 7) {
+		// register an existing type again on the same parent: the newer registration wins
+		q := g.made[g.r.Intn(len(g.made))]
+		if !g.parentName[q.Mime] {
+			e.Mime, e.Parent, e.ParentExt = q.Mime, q.Parent, q.ParentExt
+			g.dupName[q.Mime] = true
+			attached = true
+		}
+	}
+	if !attached {
 		p := parents[g.r.Intn(len(parents))]
 		e.Parent, target = p.Name, p.Fams
 	}
